@@ -265,8 +265,8 @@ def finish(ctx):
 
 def tier_params(tier):
     if tier == "thorough":
-        return {"l_count": 300000, "mixed": 1200, "cb": 320, "twins": 240, "cap": 40000, "max_states": 400}
-    return {"l_count": 6000, "mixed": 160, "cb": 120, "twins": 48, "cap": 6000, "max_states": 250}
+        return {"l_count": 300000, "mixed": 1200, "cb": 320, "twins": 240, "cap": 120000, "max_states": 400}
+    return {"l_count": 6000, "mixed": 160, "cb": 120, "twins": 48, "cap": 30000, "max_states": 250}
 
 
 def stage_l(ctx, prop=None, count=None):
@@ -620,11 +620,16 @@ def check_C02(ctx):
     ctx.assumptions += ["error end = first unit after which no reference component can still report, at least one byte, rounded up to a char boundary"]
 
 
+def panic_rule(v):
+    return v.get("rule") in ("panic-while-lexing", "shard-crashed")
+
+
 def check_C03(ctx):
     ctx.rules += [L_RULE, "C03 L-level additionally demands that no accepted pattern matches the empty string (reference start state and regex meta engine).",
                   STREAM_RULE, "Structural monitor per run: non-empty strictly increasing spans, gaps tiled by skip matches, None forever after None, final span len..len, read budget 4*(len+2)+16 per attempt. Non-trivial R case: distinct (definition, input, observation)."]
     stage_l(ctx)
-    _, _, _, aggs = stage_stream(ctx, "mixed", list(CONFIGS), {"C03"})
+    # a panic inside next() means the remaining items are never yielded and None never arrives
+    _, _, _, aggs = stage_stream(ctx, "mixed", list(CONFIGS), {"C03"}, adopt=panic_rule)
     fold_stream_cov(ctx, aggs, "distinct_cases")
     ctx.assumptions += ["non-termination is decided by the read budget of the read-trace hook, never by wall-clock time"]
 
